@@ -182,7 +182,11 @@ func condWaitStates(c *Ctx, fn *ssa.Function) map[ssa.Instruction]StateSet {
 	}
 	before := map[ssa.Instruction]StateSet{}
 	pf.Visit = func(f *ssa.Function, in ssa.Instruction, s StateSet) { before[in] |= s }
+	// a bracket helper that runs a function literal between Unlock and Lock (c.whileUnlocked(func() bool { select ... })): its
+	// func-typed parameter stands for the literal
+	unbind := bindFuncParams(fn)
 	pf.Exits(fn, ss(0))
+	unbind()
 	return before
 }
 
@@ -253,23 +257,11 @@ func ruleCondSnapshot(c *Ctx, r *R) {
 	// then the receive completed (the typestate sets WOKE only after UNL, and UNL only after SNAP)
 	before := condWaitStates(c, fn)
 	okOrder, any := true, false
-	for in, st := range before {
-		ret, ok := in.(*ssa.Return)
-		if !ok || len(ret.Results) != 1 {
-			continue
-		}
-		if _, isErr := returnedValue(ret, 0).Type().Underlying().(*types.Interface); !isErr {
-			continue
-		}
+	{
 		states := []StateSet{}
-		if isNilConst(returnedValue(ret, 0)) {
-			states = append(states, st)
-		} else if phi, ok := returnedValue(ret, 0).(*ssa.Phi); ok && phi.Block() == ret.Block() {
-			for i, e := range phi.Edges { // single exit returning a carried error variable: the nil ways in
-				pb := ret.Block().Preds[i]
-				if isNilConst(e) && len(pb.Instrs) > 0 {
-					states = append(states, before[pb.Instrs[len(pb.Instrs)-1]])
-				}
+		for _, rs := range condReturns(fn, before) { // the ways out that report a wake-up (nil)
+			if isNilConst(rs.res) {
+				states = append(states, rs.st)
 			}
 		}
 		for _, s2 := range states {
@@ -290,40 +282,7 @@ func ruleCondLockState(c *Ctx, r *R) {
 		return
 	}
 	before := condWaitStates(c, fn)
-	type retState struct {
-		ret *ssa.Return
-		st  StateSet
-		res ssa.Value
-	}
-	var rets []retState
-	for in, st := range before {
-		ret, ok := in.(*ssa.Return)
-		if !ok || len(ret.Results) != 1 {
-			continue
-		}
-		if !types.Identical(returnedValue(ret, 0).Type(), fn.Signature.Results().At(0).Type()) {
-			continue
-		}
-		// a single exit that returns a carried variable (`var err error; … err = ctx.Err() …; return err`): one virtual
-		// return per way into the exit block, with the value and the state of that way
-		if phi, ok := returnedValue(ret, 0).(*ssa.Phi); ok && phi.Block() == ret.Block() {
-			for i, e := range phi.Edges {
-				pb := ret.Block().Preds[i]
-				if len(pb.Instrs) == 0 {
-					continue
-				}
-				rets = append(rets, retState{ret, before[pb.Instrs[len(pb.Instrs)-1]], e})
-			}
-			continue
-		}
-		// a return that merely hands on a helper's result is decided at the helper's own returns
-		if call, ok := returnedValue(ret, 0).(*ssa.Call); ok {
-			if cal := staticCallee(&call.Call); cal != nil && cal.Blocks != nil && rootFn(cal).Pkg == fn.Pkg {
-				continue
-			}
-		}
-		rets = append(rets, retState{ret, st, returnedValue(ret, 0)})
-	}
+	rets := condReturns(fn, before)
 	// a wake-up token is taken off the channel only by the wait itself (after c.L was released), and only once: a receive
 	// before the release ("drop a stale token") steals the token of a waiter that has already unlocked but not yet parked; a
 	// second receive after the wake-up eats the next waiter's
@@ -712,4 +671,85 @@ func isCondChanLoad(c *Ctx, v ssa.Value) (loads []*ssa.UnOp, ok bool) {
 		loads = append(loads, ld)
 	}
 	return loads, len(loads) > 0
+}
+
+type retState struct {
+	ret *ssa.Return
+	st  StateSet
+	res ssa.Value
+}
+
+// condReturns: the returns of Wait with the abstract states and the value of each way out (a carried result variable - a
+// merge, or a local assigned by a function literal - is split into one virtual return per way in).
+func condReturns(fn *ssa.Function, before map[ssa.Instruction]StateSet) []retState {
+	var rets []retState
+	for in, st := range before {
+		ret, ok := in.(*ssa.Return)
+		if !ok || len(ret.Results) != 1 {
+			continue
+		}
+		if !types.Identical(returnedValue(ret, 0).Type(), fn.Signature.Results().At(0).Type()) {
+			continue
+		}
+		// a single exit that returns a carried variable (`var err error; … err = ctx.Err() …; return err`): one virtual
+		// return per way into the exit block, with the value and the state of that way
+		if phi, ok := returnedValue(ret, 0).(*ssa.Phi); ok && phi.Block() == ret.Block() {
+			for i, e := range phi.Edges {
+				pb := ret.Block().Preds[i]
+				if len(pb.Instrs) == 0 {
+					continue
+				}
+				rets = append(rets, retState{ret, before[pb.Instrs[len(pb.Instrs)-1]], e})
+			}
+			continue
+		}
+		// a result kept in a local that a function literal assigns (`var err error; c.whileUnlocked(func() bool { select { case
+		// <-ctx.Done(): err = ctx.Err(); return false ... } }); return err`): when every store to the variable happens on paths
+		// through the ctx.Done() arm only, the return yields the stored value on those paths and nil on all others
+		if ld, ok := returnedValue(ret, 0).(*ssa.UnOp); ok && ld.Op == token.MUL {
+			if cell, ok := ld.X.(*ssa.Alloc); ok && cell.Parent() == fn {
+				sts := storesTo(cell)
+				ctxOnly := len(sts) > 0
+				for _, sx := range sts {
+					bs, seen := before[sx]
+					if !seen || bs == 0 {
+						ctxOnly = false
+						continue
+					}
+					bs.each(func(q int) {
+						if q&cCTX == 0 {
+							ctxOnly = false
+						}
+					})
+				}
+				if ctxOnly {
+					var withCtx, without StateSet
+					st.each(func(q int) {
+						if q&cCTX != 0 {
+							withCtx |= ss(q)
+						} else {
+							without |= ss(q)
+						}
+					})
+					if withCtx != 0 {
+						for _, sx := range sts {
+							rets = append(rets, retState{ret, withCtx, sx.Val})
+						}
+					}
+					if without != 0 {
+						rets = append(rets, retState{ret, without, ssa.NewConst(nil, ld.Type())})
+					}
+					continue
+				}
+			}
+		}
+		// a return that merely hands on a helper's result is decided at the helper's own returns
+		if call, ok := returnedValue(ret, 0).(*ssa.Call); ok {
+			if cal := staticCallee(&call.Call); cal != nil && cal.Blocks != nil && rootFn(cal).Pkg == fn.Pkg {
+				continue
+			}
+		}
+		rets = append(rets, retState{ret, st, returnedValue(ret, 0)})
+	}
+	return rets
 }
